@@ -705,3 +705,8 @@ def run(ctx):
     ctx.guard(rule_r17)
     ctx.guard(rule_r18)
     ctx.guard(rule_r19)
+    from . import c20
+    ctx.guard(c20.rule_r25)          # a line that does not parse is refused: its status is not overwritten by the next line's
+    for rr in ctx.rules:
+        if rr.id == "C20.R25":
+            rr.id = "C16.R20"
